@@ -16,7 +16,9 @@ THEOREMS = CT.THEOREMS_C08 + [
     ('EAO.Properties.C20', 'EAO.C20.order_outside_inert', 'an order with no step in the horizon has zero cost, no mapping row, no restriction and occurs in no nodal row'),
     ('EAO.Properties.C19', 'EAO.C19.restricted_is_filter', 'the asset grid is exactly the sub-list of grid points in [start, end)'),
 ] + ST_.THEOREMS_C08_STORAGE + CH_.THEOREMS_C08 + SC_.THEOREMS_C08_SCALED
-PARTIAL = ['window theorems (every mapping row inside the asset\'s own grid, zero read-out outside it, empty window inert) are proved builder by builder: contract / transport / multi-commodity / order book, Storage (all options), CHP / Plant / min-load CHP / ramp profiles, and for the wrappers ScaledAsset and StructuredAsset relative to what they wrap; LinkedAsset is not modelled; that the window of a StructuredAsset reaches every wrapped asset (also the order book, which has no start/end parameter of its own) is not a theorem but searched for failing inputs by stream swin against the window applied by hand; that the start/end of a ScaledAsset reach its base asset is likewise searched by the oracles (top-level scaled assets with own windows in stream meta, wrapped ones in stream swin), not proved; the metamorphic statement (an asset outside the horizon changes nothing ELSE) follows from these plus the composition theorems of C09 and is searched for failing inputs by the oracle']
+PARTIAL = ['window theorems (every mapping row inside the asset\'s own grid, zero read-out outside it, empty window inert) are proved builder by builder: contract / transport / multi-commodity / order book, Storage (all options), CHP / Plant / min-load CHP / ramp profiles, and for the wrappers ScaledAsset and StructuredAsset relative to what they wrap; LinkedAsset is not modelled; that the window of a StructuredAsset reaches every wrapped asset (also the order book, which has no start/end parameter of its own) is not a theorem but searched for failing inputs by stream swin against the window applied by hand; that the start/end of a ScaledAsset reach its base asset is likewise searched by the oracles (top-level scaled assets with own windows in stream meta, wrapped ones in stream swin), not proved; the metamorphic statement (an asset outside the horizon changes nothing ELSE) follows from these plus the composition theorems of C09 and is searched for failing inputs by the oracle; '
+           'that the part of the horizon outside every window changes nothing (time blocks of a storage, run times of a plant, coarse steps and take periods are counted from the asset\'s own window, not from the horizon) is not a theorem but searched by stream hext and the horizon cut of stream meta; '
+           'take_prorated is a theorem about the model of the builders (tied by the correspondence cases, which include two-variable contracts); on the real code the prorated right-hand side is checked by the oracles of streams oracle (one variable per step) and take (one and two)']
 COMPONENTS = ['contract/transport builders (simple_contract, contract, multi, transport, ext_transport) vs the real builders, incl. windows in 9 placements and take periods inside/straddling/outside']
 RULE = ('streams and oracles: (a) builder correspondence cases over all option combinations; (b) metamorphic: a random portfolio plus an extra asset of ANY kind whose window lies entirely outside the horizon (before/after), or extra take periods / orders outside: value and the other assets\' solution unchanged; '
         '(c) every asset\'s dispatch is zero outside its own window clipped to the horizon (scaled asset: own start/end intersected with the window of its base; own windows in all placements), and every asset wrapped in a StructuredAsset is - per wrapped asset, at external and internal nodes - dispatched only inside the structure\'s window intersected with its own; proration of take periods checked against date arithmetic; '
@@ -26,9 +28,21 @@ RULE = ('streams and oracles: (a) builder correspondence cases over all option c
         'plus the reference optimum of the same portfolio with the window applied BY HAND (window removed from the structure, wrapped windows intersected, orders cut to the window, orders without a part inside dropped); '
         '(f) stream cwin (comp/c08coarse.py): an asset of every class that accepts freq, at a frequency of 2-4 grid steps, whose own window reaches beyond the horizon at the start, the end or both (by whole coarse steps, by part of one, also between grid points) or lies entirely outside it: '
         'works whenever the same asset without freq works, no dispatch outside the window clipped to the horizon, same optimum (and the solution still optimal) with the window shrunk to the asset\'s own coarse cuts enclosing the horizon and, where the horizon starts on such a cut, with the window clipped to the horizon; entirely outside: optimum as without the asset; '
-        'non-trivial = solved scenario in which the tested element exists (swin: the window excludes at least one step of the horizon; cwin: the coarse asset is dispatched, or lies outside); distinct by case hash')
-ASSUMPTIONS = ['values compared with tolerance 2e-6 relative; dispatch outside a window counts from 1e-6 of the largest dispatch; solutions compared by transport into the other problem (ties allowed)']
-EXPLANATION = 'theorems about the builder models; correspondence; metamorphic oracles on the real code (inert elements outside the horizon; windows of structured assets against the window applied by hand; coarse-frequency assets whose window reaches beyond the horizon)'
+        '(g) stream hext (comp/c08gen.py): portfolios in which EVERY asset has an explicit window inside the horizon H (storages optimised in time blocks - block_size from 2 steps to half the window, also a week and sizes that are no multiple of the step - '
+        'with own starts at any offset, plain storages, plants / CHP with minimum run and down times and a history, contracts / transports / multi-commodity contracts with take periods anywhere, assets at a coarser frequency with windows on whole coarse steps, '
+        'scaled assets, order books with all orders inside H, markets), optimised on H and on H extended by 0-5 steps before and 0-4 after (prices there arbitrary; no discounting when extended before, since discounting counts from the start of the horizon): '
+        'both work or both fail, same optimum, no dispatch outside the windows, and the solution on either horizon, carried over asset by asset, is feasible and optimal on the other; '
+        'the horizon cut of stream meta (all windows of a random portfolio clamped to the horizon cut by k steps) now cuts at the end, at the start or at both; '
+        '(h) stream take (comp/c08gen.py): Contract and MultiCommodityContract with one AND with two variables per step (extra costs in any form with capacities of both signs), ExtendedTransport, Plant, CHPAsset; own windows in 8 grid-aligned placements; '
+        '1-3 max_take / min_take periods anywhere relative to horizon and window: the right-hand side of every take row of the asset\'s own problem equals V * covered / (e - s) by date arithmetic (covered = the steps inside window and period), exactly as many take rows as periods covering a step, '
+        'and, for the contract and transport classes next to markets that make taking pay off or not, what is taken in the covered steps in the optimum respects the prorated bound; '
+        'non-trivial = solved scenario in which the tested element exists (swin: the window excludes at least one step of the horizon; cwin: the coarse asset is dispatched, or lies outside; hext: both horizons solved; take: a period covers a step); distinct by case hash')
+ASSUMPTIONS = ['values compared with tolerance 2e-6 relative; dispatch outside a window counts from 1e-6 of the largest dispatch; solutions compared by transport into the other problem (ties allowed); '
+               'covered duration of a take period = total length of the steps of the horizon that begin inside the asset\'s window and inside the period (take dates and windows of stream take lie on grid points, where this is the length of the overlap)']
+# the start side of the horizon cut of stream meta (d).  False: cut at the end only.
+ALLOW_CUT_START = True
+EXPLANATION = ('theorems about the builder models; correspondence; metamorphic oracles on the real code (inert elements outside the horizon; windows of structured assets against the window applied by hand; coarse-frequency assets whose window reaches beyond the horizon; '
+               'the same portfolio with all windows inside the horizon on a horizon extended before / after); take rows of one- and two-variable contracts against date arithmetic')
 
 
 def scenarios(seed, tier):
@@ -81,6 +95,12 @@ def scenarios(seed, tier):
     for i in range(n // 2):
         # an asset with a COARSER frequency than the grid whose own window reaches beyond the horizon or lies entirely outside it
         yield 'cwin%d' % i, {'stream': 'cwin', 'case': G8C.gen_case(random.Random(rnd.getrandbits(48)), tmax=16 if tier == 'quick' else 30)}
+    for i in range(n // 2):
+        # every asset with an explicit window inside the horizon H; the same portfolio on H extended before and / or after
+        yield 'hext%d' % i, {'stream': 'hext', 'case': G8.gen_hext_case(random.Random(rnd.getrandbits(48)), tmax=24 if tier == 'quick' else 40, allow_mip=(i % 3 != 0))}
+    for i in range(n // 2):
+        # take periods placed anywhere relative to horizon and window, on contracts with one or two variables per step
+        yield 'take%d' % i, {'stream': 'take', 'case': G8.gen_take_case(random.Random(rnd.getrandbits(48)), tmax=10 if tier == 'quick' else 16)}
 
 
 def outside_asset(rnd, scn):
@@ -226,41 +246,58 @@ def run_meta(scn, r):
     if 'windowed-asset' in feats:
         r['nontrivial'] = True
     rnd = random.Random(scn['extra_seed'])
-    # (d) the part of the horizon after every asset's window matters to nobody: with all windows ending k steps before the end of
-    #     the horizon, the optimum equals the optimum on the horizon cut there
+    # (d) the part of the horizon before / after every asset's window matters to nobody: with all windows starting j steps after the
+    #     start and / or ending k steps before the end of the horizon, the optimum equals the optimum on the horizon cut there
+    #     (start side only without discounting, which counts from the start of the horizon)
     g0 = base['grid']
     T0 = g0['T_nominal']
     if T0 >= 4 and not any(a['type'] in ('OrderBook', 'StructuredAsset') for a in base['assets']):
         try:
-            k_cut = rnd.randint(1, max(1, T0 // 3))
-            pe = gen.P(g0, T0 - k_cut)
-            if gen.ok_local(pe, g0):
+            side = rnd.choice(['end', 'start', 'both']) if ALLOW_CUT_START else 'end'
+            if side != 'end' and any('wacc' in x.get('args', {}) for x in scen.all_asset_specs(base)):
+                side = 'end'
+            k_cut = rnd.randint(1, max(1, T0 // 3)) if side != 'start' else 0
+            j_cut = rnd.randint(1, max(1, T0 // 3)) if side != 'end' else 0
+            ps, pe = gen.P(g0, j_cut), gen.P(g0, T0 - k_cut)
+
+            def clamp(args):
+                ts = lambda v: pd.Timestamp(v['$dt'])
+                if k_cut and ('end' not in args or ts(args['end']) > pe):
+                    args['end'] = gen.dtv(pe)
+                if j_cut and ('start' not in args or ts(args['start']) < ps):
+                    args['start'] = gen.dtv(ps)
+                if 'start' in args and 'end' in args and ts(args['start']) >= ts(args['end']):
+                    # (nothing left of the asset's own window: it gets the whole cut horizon)
+                    for key, cut_, p_ in (('start', j_cut, ps), ('end', k_cut, pe)):
+                        if cut_:
+                            args[key] = gen.dtv(p_)
+                        else:
+                            args.pop(key)
+            if gen.ok_local(pe, g0) and gen.ok_local(ps, g0):
                 early = copy.deepcopy(base)
                 for a in early['assets']:
-                    tgt = a['base']['args'] if a['type'] == 'ScaledAsset' else a['args']
-                    if 'end' not in tgt or pd.Timestamp(tgt['end']['$dt']) > pe:
-                        tgt['end'] = gen.dtv(pe)
+                    clamp(a['base']['args'] if a['type'] == 'ScaledAsset' else a['args'])
                     if a['type'] == 'ScaledAsset':
-                        a['args']['end'] = gen.dtv(pe)
-                    if 'start' in tgt and pd.Timestamp(tgt['start']['$dt']) >= pe:
-                        tgt.pop('start')
+                        clamp(a['args'])
                 cut = copy.deepcopy(early)
                 cut['grid'] = dict(g0)
+                cut['grid']['start'] = g0['_pts'][j_cut]
                 cut['grid']['end'] = g0['_pts'][T0 - k_cut]
                 gen.fix_grid(cut['grid'])
-                cut['prices'] = {k_: list(v_)[:T0 - k_cut] for k_, v_ in early['prices'].items()}
+                cut['prices'] = {k_: list(v_)[j_cut:T0 - k_cut] for k_, v_ in early['prices'].items()}
                 re_, rc_ = pf.setup_mono(early), pf.setup_mono(cut)
-                if rc_['tg'].T == T0 - k_cut and re_['tg'].T == T0:
+                if rc_['tg'].T == T0 - k_cut - j_cut and re_['tg'].T == T0:
                     pf.solve_rec(re_)
                     pf.solve_rec(rc_)
                     r['evaluated'] += 2
-                    feats.append('horizon-cut')
+                    feats.append('horizon-cut:' + side)
                     a_, b_ = re_['res'], rc_['res']
+                    txt = 'all windows start %d steps after the start and end %d steps before the end of the horizon' % (j_cut, k_cut)
                     if isinstance(a_, str) != isinstance(b_, str):
-                        viol('all windows end %d steps before the end of the horizon: optimisation on the full horizon %s, on the horizon cut there %s' % (
-                            k_cut, a_ if isinstance(a_, str) else 'successful', b_ if isinstance(b_, str) else 'successful'), what='horizon_cut_status')
+                        viol('%s: optimisation on the full horizon %s, on the horizon cut there %s' % (
+                            txt, a_ if isinstance(a_, str) else 'successful', b_ if isinstance(b_, str) else 'successful'), what='horizon_cut_status', side=side)
                     elif not isinstance(a_, str) and abs(float(a_.value) - float(b_.value)) > 2e-6 * max(1.0, abs(float(b_.value))):
-                        viol('all windows end %d steps before the end of the horizon: optimum %.9g on the full horizon, %.9g on the horizon cut there' % (k_cut, float(a_.value), float(b_.value)), what='horizon_cut_value')
+                        viol('%s: optimum %.9g on the full horizon, %.9g on the horizon cut there' % (txt, float(a_.value), float(b_.value)), what='horizon_cut_value', side=side)
         except Exception as e:
             feats.append('horizon-cut-skip:' + impl.err_class(e))
     # (b') an extra ORDER lying entirely outside the horizon, placed anywhere in an existing order book (also before
@@ -514,6 +551,10 @@ def run_case(c, drv):
         run_swin(c['case'], r)
     elif c['stream'] == 'cwin':
         G8C.run_case(c['case'], r)
+    elif c['stream'] == 'hext':
+        G8.run_hext(c['case'], r, check_windows)
+    elif c['stream'] == 'take':
+        G8.run_take(c['case'], r)
     else:
         run_meta(c['case'], r)
     return r
